@@ -22,6 +22,7 @@ var (
 	nsFamC07 = []string{"nodesim-campaign-with-unapplied-config-change", "nodesim-membership-differs",
 		"nodesim-applied-entry-differs", "nodesim-two-leaders-one-term", "nodesim-panic"}
 	nsFamC06 = []string{"nodesim-stale-read", "nodesim-panic"}
+	nsFamC04 = []string{"nodesim-term-not-durable", "nodesim-vote-not-durable", "nodesim-ack-not-durable", "nodesim-commit-advertised-before-durable", "nodesim-panic"}
 	nsFamC12 = []string{"nodesim-no-terminal-result", "nodesim-timeout-before-deadline", "nodesim-two-results", "nodesim-completed-not-applied",
 		"nodesim-foreign-result", "nodesim-panic"}
 	nsFamC17 = []string{"nodesim-no-leader-in-fair-phase", "nodesim-no-progress-in-fair-phase",
@@ -696,6 +697,29 @@ func TestVF_C02_NodeSim(t *testing.T) {
 			}
 			return s.flags["ev-leader-change"] || s.flags["act-restart"] || s.flags["act-stall"] ||
 				s.flags["act-isolate"] || s.flags["act-cut-link"] || s.flags["act-hold-link"]
+		},
+	})
+}
+
+// C04, the send-before-save half at the node level: node.go decides which messages of an
+// Update leave before SaveRaftState (sendReplicateMessages / isFreeOrderMessage /
+// canSendBeforeSave) and which after; every message is checked against what was durable
+// at the instant it left.
+func TestVF_C04_NodeSim(t *testing.T) {
+	nsRun(t, &nsProfile{
+		unit:  "TestVF_C04_NodeSim",
+		rule:  "E9 nodesim, election + read profile (leader changes, transfers, partitions healed while reads are in flight, single voting member shards with a non-voting member): every message a node hands to the transport is compared with the hard state and entries that SaveRaftState calls that had returned made durable; non-trivial = >= 2 leader changes or a link fault healed, and a read or a proposal completed",
+		armed: nsFamC04,
+		weights: []nsWeight{{"round", 18}, {"rounds-long", 5}, {"tick-one", 4}, {"step-one", 6}, {"apply-one", 2}, {"work-no-tick", 4},
+			{"propose", 12}, {"propose-burst", 4}, {"read", 14}, {"cc", 3}, {"transfer", 8},
+			{"isolate", 7}, {"cut-link", 5}, {"hold-link", 5}, {"heal", 7}, {"stall", 3}, {"crash", 3}, {"restart", 5},
+			{"start-joiner", 2}},
+		quiescePct: 3,
+		voters:     nsVoters(map[int]int{1: 3, 2: 2, 3: 8, 5: 3}),
+		maxActions: 40,
+		nontrivial: func(s *nsSim) bool {
+			return (s.flags["res-read-RequestCompleted"] || s.flags["res-prop-RequestCompleted"]) &&
+				(s.flags["ev-leader-change"] || s.flags["act-isolate"] || s.flags["act-cut-link"] || s.flags["act-hold-link"])
 		},
 	})
 }
